@@ -271,7 +271,7 @@ func init() {
 	Register(&Family{Name: "C11.conc", Props: []string{"C11", "C13"}, Weight: 3, Gen: gen("C11.conc", 2), Run: runC11})
 	// the race detector's view of Share's bookkeeping: the source terminates on one goroutine exactly while
 	// the last subscriber leaves (and a new one arrives) on others, over the whole cube of reset options
-	Register(&Family{Name: "C13.share", Props: []string{"C13"}, Weight: 4, Gen: func(g *Gen) *Scn {
+	Register(&Family{Name: "C13.share", Props: []string{"C13"}, Weight: 60, Gen: func(g *Gen) *Scn {
 		sc := &Scn{Family: "C13.share", Sub: g.Pick("share", "share", "sharereplay")}
 		sc.SetInt("connector", g.Intn(6))
 		sc.SetInt("rbuf", g.PickInt(0, 1, 2))
